@@ -11,10 +11,11 @@ jobs = []
 kf = json.load(open('known_findings.json'))
 for f in kf['findings']:
     if f.get('revert_patch'):
-        jobs.append((f['revert_patch'], ','.join(f['detected_by'])))
+        jobs.append((f['revert_patch'], ','.join(f['detected_by'] if os.environ.get('ALL') else f['detected_by'][:1])))
 for m in sorted(glob.glob('seeded/*/meta.json')):
     d = json.load(open(m))
-    jobs.append((os.path.join(os.path.dirname(m), 'patch.diff'), ','.join(d.get('check_with', [d['property']]))))
+    cw = d.get('check_with', [d['property']])
+    jobs.append((os.path.join(os.path.dirname(m), 'patch.diff'), ','.join(cw if os.environ.get('ALL') else cw[:1])))
 bad = 0
 for patch, props in jobs:
     if not re.search(pat, patch):
